@@ -101,6 +101,17 @@ def one(ctx, y, yh, x, family):
             scale = mag2 * max(n, 1)        # dimensional quantities: rounding scale is the squared magnitude of the data, not 1
         if name in ('r2', 'r2adj'):
             scale = abs(q) + 2
+            # a large common offset with a small swing: the float mean carries a rounding error delta ~ eps * |mean|, so the centred sum tss is
+            # known only to within 2*sqrt(n*tss)*delta + n*delta^2; R2 = 1 - rss/tss inherits |1 - R2| times that relative error
+            ymax_ = float(np.max(np.abs(y))) if n else 0.0
+            tss_ = float(np.sum((y - np.mean(y)) ** 2)) if n else 0.0
+            if tss_ > 0:
+                delta_ = 8 * np.finfo(float).eps * ymax_
+                rel_ = (2 * math.sqrt(n * tss_) * delta_ + n * delta_ * delta_) / tss_
+                if rel_ > 0.05:
+                    ctx.tag('r2:offset-noise-dominates-the-spread(inconclusive)')
+                    continue
+                scale = scale + F(1e9 * rel_) * abs(1 - q) * 2
         if not close(fval, q, scale):
             ctx.fail('predicate', f'{name}-equals-its-definition(to within rounding)', site, case, dict(impl=fval, model=str(q), model_float=float(q)))
     # rmsle through supplied logs
@@ -231,7 +242,7 @@ def run(ctx):
         elif u3 < 0.14:
             y, yh, fam = y * 2.0 ** 30, yh * 2.0 ** 30, fam + '@yhuge30'
         elif u3 < 0.22:
-            off = rng.choice([2.0 ** 20, 2.0 ** 26])
+            off = rng.choice([2.0 ** 20, 2.0 ** 26, 2.0 ** 33, 2.0 ** 40])       # up to epoch-seconds / byte-offset sized base lines
             y, yh, fam = y + off, yh + off, fam + '@yoff'                        # large base line, small swing: R2 needs the centred sums
         one(ctx, y, yh, x, fam)
         if rng.random() < 0.35:
